@@ -382,7 +382,7 @@ func serveRewriter(w http.ResponseWriter, r *http.Request) {
 type World struct {
 	P                             Profile
 	Cfg                           Cfg
-	fwName, cacheName             string
+	fwName, cacheName, primerID   string
 	E                             *engine.Engine
 	GW                            *proxy.AIProxy
 	primer                        *proxy.AIProxy
@@ -477,6 +477,12 @@ func hostEngine(p Profile) (*engine.Engine, error) {
 func hostClose() {
 	if host.E != nil {
 		host.E.Close()
+	}
+	hostRemove()
+}
+
+func hostRemove() {
+	if host.dir != "" {
 		os.RemoveAll(host.dir)
 	}
 }
@@ -544,7 +550,8 @@ func newWorld(p Profile, cfg Cfg) (*World, error) {
 	return w, nil
 }
 
-// a world's cache index is dropped in the background when the world is done (names are never reused)
+// a world's cache index is dropped when the world is done (names are never reused). Not in the
+// background: VDeleteIndex takes DB.mu for writing, see cacheIDs.
 var closers sync.WaitGroup
 
 func (w *World) Close() {
@@ -554,13 +561,9 @@ func (w *World) Close() {
 	if e == nil {
 		return
 	}
-	closers.Add(1)
-	go func() {
-		defer closers.Done()
-		if _, ok := e.DB.GetVectorIndex(name); ok {
-			_ = e.VDeleteIndex(name)
-		}
-	}()
+	if _, ok := e.DB.GetVectorIndex(name); ok {
+		_ = e.VDeleteIndex(name)
+	}
 }
 
 // ---------------------------------------------------------------- the cache index as the property sees it
@@ -597,16 +600,17 @@ func (w *World) cacheLanguage() string {
 
 const primerQuery = "primer request without any known phrase"
 
-// ids of the entries the property talks about (the harness' own primer entry is not one of them)
+// ids of the entries the property talks about (the harness' own primer entry is not one of them).
+// Only the id listing is used here: this is what the harness polls while the gateway may be
+// storing an answer in the background, and Engine.VGet must not run concurrently with the
+// VCreate inside saveToCache (core.DB.GetVector takes DB.mu.RLock twice; a writer arriving in
+// between deadlocks the whole DB).
 func (w *World) cacheIDs() []string {
 	var out []string
 	for _, id := range w.rawCacheIDs() {
-		if d, err := w.E.VGet(w.cacheName, id); err == nil {
-			if q, _ := d.Metadata["query"].(string); strings.HasPrefix(q, primerQuery) {
-				continue
-			}
+		if id != w.primerID {
+			out = append(out, id)
 		}
-		out = append(out, id)
 	}
 	return out
 }
@@ -699,18 +703,20 @@ func (w *World) ensureCacheIndex() error {
 	rec := httptest.NewRecorder()
 	w.primer.ServeHTTP(rec, httptest.NewRequest("POST", "http://gateway.local/api/generate", strings.NewReader(body)))
 	// The throw-away entry stays in the index, far from every position and long expired (removing the
-	// only node of an index would leave the index without a usable entry point); observeCache hides it.
+	// only node of an index would leave the index without a usable entry point); cacheIDs hides it.
 	deadline := time.Now().Add(time.Duration(w.P.SaveWaitMs) * time.Millisecond)
-	for time.Now().Before(deadline) {
-		for _, id := range w.rawCacheIDs() {
-			d, err := w.E.VGet(w.cacheName, id)
-			if err != nil {
-				continue
-			}
-			if q, _ := d.Metadata["query"].(string); strings.HasPrefix(q, primerQuery) {
-				if c, ok := d.Metadata["created_at"].(float64); ok {
-					return w.E.VSetMetadata(w.cacheName, id, map[string]any{"created_at": c - 1000*cacheTTL.Seconds()})
-				}
+	for time.Now().Before(deadline) && w.primerID == "" {
+		if ids := w.rawCacheIDs(); len(ids) > 0 {
+			w.primerID = ids[0]
+			break
+		}
+		time.Sleep(time.Millisecond)
+	}
+	for time.Now().Before(deadline) && w.primerID != "" {
+		// the node is listed, so the VCreate of saveToCache is over: reading it is safe now
+		if d, err := w.E.VGet(w.cacheName, w.primerID); err == nil {
+			if c, ok := d.Metadata["created_at"].(float64); ok {
+				return w.E.VSetMetadata(w.cacheName, w.primerID, map[string]any{"created_at": c - 1000*cacheTTL.Seconds()})
 			}
 		}
 		time.Sleep(time.Millisecond)
